@@ -466,6 +466,16 @@ class CallsMixin:
             st.pc.append(z3.ForAll([x], z3.Implies(T.Sel(S, x), z3.And(0 <= w(x), w(x) < ln, T.Sel(arr, w(x)) == x)),
                                    patterns=[T.Sel(S, x)]))
             return self.new_cell(st, SetT(et), S)
+        if v.ty == PY and isinstance(v.py, IterModel) and v.py.setlike is None:
+            # set(d.keys()) and the like over an indexed view: the image of the positions
+            i = z3.Int(fresh_name('i'))
+            st.guards.append(z3.And(0 <= i, i < v.py.n))
+            try:
+                item = v.py.item(i, st)
+            finally:
+                st.guards.pop()
+            x = z3.Const(fresh_name('e'), sort_of(item.ty))
+            return self.new_cell(st, SetT(item.ty), z3.Lambda([x], z3.Exists([i], z3.And(0 <= i, i < v.py.n, self.as_term(item, st) == x))))
         raise Unsupported(f'set({v.ty!r})')
 
     def isinstance_(self, v, clsnode, st):
